@@ -99,6 +99,10 @@ fn judge(rep: &mut Report, spec: &ObjSpec, container: &str, fmt: &str, field: &s
 }
 
 /// `codec <table.json> <out.json> <seed> <Lmax>`
+struct BytesLike(Vec<u8>);
+impl serde::Serialize for BytesLike { fn serialize<S: serde::Serializer>(&self, s: S) -> Result<S::Ok, S::Error> { s.serialize_bytes(&self.0) } }
+#[allow(dead_code)]
+fn crate_bytes_like(v: &[u8]) -> BytesLike { BytesLike(v.to_vec()) }
 fn rng_key32() -> Vec<u8> { (0..32u8).map(|i| i.wrapping_mul(11) | 1).collect() }
 pub fn cmd_codec(args: &[String]) {
     let table: Value = serde_json::from_str(&std::fs::read_to_string(&args[0]).unwrap()).unwrap();
@@ -361,6 +365,56 @@ pub fn cmd_codec(args: &[String]) {
         if let Ok(Ok(_)) = catch(|| dryoc::kdf::Kdf::<Vec<u8>, Vec<u8>>::from_parts(rng_key32(), ctx[..7].to_vec()).derive_subkey_to_vec(1)) { rep.fail("Kdf<Vec,Vec> with a 7-byte context derives a subkey (padded context)", json!(null)); }
         if let Ok(_) = catch(|| { let b: dryoc::dryocsecretbox::DryocSecretBox<Vec<u8>, Vec<u8>> = dryoc::dryocsecretbox::DryocSecretBox::encrypt(&msg, &nonce, &short_key); b }) { rep.fail("DryocSecretBox::encrypt with a 31-byte key in a Vec produces a box (padded key)", json!(null)); }
         if let Ok(_) = catch(|| dryoc::auth::Auth::compute_to_vec(short_key.clone(), &msg)) { rep.fail("Auth::compute_to_vec with a 31-byte key in a Vec produces a MAC (padded key)", json!(null)); }
+    }
+    // decoding IN PLACE (serde's deserialize_in_place, what a container of such values uses when it is decoded into an existing
+    // one): the value that was there before - longer, shorter, empty - leaves no trace in the result
+    #[cfg(feature = "nightly")]
+    {
+        use bincode::Options;
+        use serde::Deserialize;
+        use dryoc::protected::{HeapBytes, LockedBytes, Lockable};
+        // ... and neither does a decode that FAILED half-way on the same thread just before
+        for n in [3usize, 40, 4097] {
+            let good = rng.bytes(n);
+            let js = serde_json::to_string(&good).unwrap();
+            rep.evaluations += 2;
+            let _ = catch(|| serde_json::from_str::<HeapBytes>("[222,173,190,\"oops\"]").is_ok());
+            match catch(|| serde_json::from_str::<HeapBytes>(&js).map(|h| h.as_slice().to_vec()).map_err(|e| e.to_string())) {
+                Ok(Ok(v)) => if v != good { rep.fail("HeapBytes decoded from JSON after a failed decode on the same thread differs from the document", json!({"len": n, "got_len": v.len()})); },
+                other => rep.fail("HeapBytes: JSON decode after a failed decode fails", json!({"len": n, "r": format!("{:?}", other)})),
+            }
+            let _ = catch(|| serde_json::from_str::<LockedBytes>("[1,2,3,4,5,300]").is_ok());
+            match catch(|| serde_json::from_str::<LockedBytes>(&js).map(|h| h.as_slice().to_vec()).map_err(|e| e.to_string())) {
+                Ok(Ok(v)) => if v != good { rep.fail("LockedBytes decoded from JSON after a failed decode on the same thread differs from the document", json!({"len": n, "got_len": v.len()})); },
+                other => rep.fail("LockedBytes: JSON decode after a failed decode fails", json!({"len": n, "r": format!("{:?}", other)})),
+            }
+        }
+        for (newlen, oldlen) in [(5usize, 40usize), (40, 5), (0, 17), (17, 0), (4097, 9000), (16, 16)] {
+            let newv = rng.bytes(newlen); let oldv = rng.bytes(oldlen);
+            let js = serde_json::to_string(&newv).unwrap();
+            let bc = bincode::serialize(&crate_bytes_like(&newv)).unwrap();
+            rep.evaluations += 4;
+            let mut place = HeapBytes::from(&oldv[..]);
+            match catch(|| { let mut d = serde_json::Deserializer::from_str(&js); HeapBytes::deserialize_in_place(&mut d, &mut place).map_err(|e| e.to_string()) }) {
+                Ok(Ok(())) => if place.as_slice() != &newv[..] { rep.fail("HeapBytes decoded in place (JSON) keeps bytes of the value it replaced", json!({"new_len": newlen, "old_len": oldlen, "got_len": place.as_slice().len()})); },
+                other => rep.fail("HeapBytes: decoding in place (JSON) fails", json!({"new_len": newlen, "old_len": oldlen, "r": format!("{:?}", other)})),
+            }
+            let mut place = HeapBytes::from(&oldv[..]);
+            match catch(|| { let mut d = bincode::Deserializer::from_slice(&bc, bincode::DefaultOptions::new().with_fixint_encoding().allow_trailing_bytes()); HeapBytes::deserialize_in_place(&mut d, &mut place).map_err(|e| e.to_string()) }) {
+                Ok(Ok(())) => if place.as_slice() != &newv[..] { rep.fail("HeapBytes decoded in place (bincode) keeps bytes of the value it replaced", json!({"new_len": newlen, "old_len": oldlen, "got_len": place.as_slice().len()})); },
+                other => rep.fail("HeapBytes: decoding in place (bincode) fails", json!({"new_len": newlen, "old_len": oldlen, "r": format!("{:?}", other)})),
+            }
+            if let Ok(mut place) = dryoc::protected::HeapBytes::from(&oldv[..]).mlock() {
+                match catch(|| { let mut d = serde_json::Deserializer::from_str(&js); LockedBytes::deserialize_in_place(&mut d, &mut place).map_err(|e| e.to_string()) }) {
+                    Ok(Ok(())) => if place.as_slice() != &newv[..] { rep.fail("LockedBytes decoded in place (JSON) keeps bytes of the value it replaced", json!({"new_len": newlen, "old_len": oldlen})); },
+                    other => rep.fail("LockedBytes: decoding in place (JSON) fails", json!({"new_len": newlen, "old_len": oldlen, "r": format!("{:?}", other)})),
+                }
+                match catch(|| { let mut d = bincode::Deserializer::from_slice(&bc, bincode::DefaultOptions::new().with_fixint_encoding().allow_trailing_bytes()); LockedBytes::deserialize_in_place(&mut d, &mut place).map_err(|e| e.to_string()) }) {
+                    Ok(Ok(())) => if place.as_slice() != &newv[..] { rep.fail("LockedBytes decoded in place (bincode) keeps bytes of the value it replaced", json!({"new_len": newlen, "old_len": oldlen})); },
+                    other => rep.fail("LockedBytes: decoding in place (bincode) fails", json!({"new_len": newlen, "old_len": oldlen, "r": format!("{:?}", other)})),
+                }
+            }
+        }
     }
     // password-hash objects over the whole cost domain (no hashing: from_parts): to_string then from_string gives the same
     // configuration back, at and beyond the 4 GiB mark where a 32-bit byte count wraps
